@@ -76,16 +76,20 @@ package sm9
 // Encrypt can produce, from one-byte messages on, is accepted)
 //@ func (*CBCEncrypterOpts).Decrypt property C13,C10
 //@   requires opts.padding != nil && opts.newCipher != nil
+//@   bind after call newCipher#1: NE := ite(result1 == nil, 0, 1)
 //@   bind after call BlockSize#1: BSZ := result
-//@   bind after call Unpad#1: UE := result1
-//@   ensures defined(BSZ) && len(ciphertext) > BSZ && len(ciphertext) % BSZ == 0 ==> defined(UE) && (err == nil <==> UE == nil)
+//@   bind after call Unpad#1: UE := ite(result1 == nil, 0, 1)
+//@   ensures NE == 0 && len(ciphertext) > BSZ && len(ciphertext) % BSZ == 0 ==> (err == nil <==> UE == 0)
+//@   ensures NE == 1 ==> err != nil
 //@   heapnonnil
 //@   modifies everything
 //@ func (*ECBEncrypterOpts).Decrypt property C13,C10
 //@   requires opts.padding != nil && opts.newCipher != nil
+//@   bind after call newCipher#1: NE := ite(result1 == nil, 0, 1)
 //@   bind after call BlockSize#1: BSZ := result
-//@   bind after call Unpad#1: UE := result1
-//@   ensures defined(BSZ) && len(ciphertext) > 0 && len(ciphertext) % BSZ == 0 ==> defined(UE) && (err == nil <==> UE == nil)
+//@   bind after call Unpad#1: UE := ite(result1 == nil, 0, 1)
+//@   ensures NE == 0 && len(ciphertext) > 0 && len(ciphertext) % BSZ == 0 ==> (err == nil <==> UE == 0)
+//@   ensures NE == 1 ==> err != nil
 //@   heapnonnil
 //@   modifies everything
 //@ func (*CFBEncrypterOpts).Decrypt property C13,C10
